@@ -11,4 +11,5 @@ let lookup (p : string) : Model.val0 -> Model.val0 =
   | "C10" -> Model.run_C10
   | "C15" -> Model.run_C15
   | "C18" -> Model.run_C18
+  | "C16" -> Model.run_C16
   | _ -> failwith ("unknown property " ^ p)
